@@ -77,6 +77,10 @@ class PyCdlibIO(io.RawIOBase):
             data = self.readall()
         else:
             readsize = min(self._length - self._offset, size)
+            # The underlying file object is shared (with other open files,
+            # with the PyCdlib object itself), so never rely on where it was
+            # left; go to our own position first.
+            self._fp.seek(self._startpos + self._offset, 0)
             data = self._fp.read(readsize)
             self._offset += readsize
 
@@ -98,6 +102,7 @@ class PyCdlibIO(io.RawIOBase):
 
         readsize = self._length - self._offset
         if readsize > 0:
+            self._fp.seek(self._startpos + self._offset, 0)
             data = self._fp.read(readsize)
             self._offset += readsize
         else:
@@ -115,9 +120,11 @@ class PyCdlibIO(io.RawIOBase):
             mv = memoryview(b)
             m = mv.cast('B')
             readsize = min(readsize, len(m))
+            self._fp.seek(self._startpos + self._offset, 0)
             data = self._fp.read(readsize)
             n = len(data)
             m[:n] = data
+            self._offset += n
         else:
             n = 0
 
